@@ -289,6 +289,10 @@ class Stats:
             self.unsat += 1
         else:
             self.unknown += 1
+            if os.environ.get("QV_DEBUG_UNKNOWN"):
+                import traceback
+
+                sys.stderr.write("UNKNOWN verdict (%s) at\n%s\n" % (solver.reason_unknown(), "".join(traceback.format_stack(limit=4))))
         return s
 
     def into(self, d):
